@@ -81,4 +81,18 @@ back for fitted results reads the fit-time record — a later `transform` cannot
 theorem src_fit_labels_kept_apart :
     Gen.multiIndexDictsSeparate = true ∧ Gen.multiIndexInverseReadsChosenReference = true := by decide
 
+/-- source obligations: results of the fit (scores, data, components) are brought back with the record written at FIT time, only
+unseen data with the record of the last transform; and a reconstruction for Dataset input gets every squeezed non-feature
+dimension back (not only `mode`) -/
+theorem src_inverse_paths_read_the_fit_record :
+    Gen.multiIndexInverseReferences.lookup "inverse_transform_scores" = some "self._inverse_transform(X, reference='fit')" ∧
+    Gen.multiIndexInverseReferences.lookup "inverse_transform_data" = some "self._inverse_transform(X, reference='fit')" ∧
+    Gen.multiIndexInverseReferences.lookup "inverse_transform_components" = some "self._inverse_transform(X, reference='fit')" ∧
+    Gen.multiIndexInverseReferences.lookup "inverse_transform_scores_unseen" = some "self._inverse_transform(X, reference='transform')" := by decide
+
+theorem src_every_squeezed_dimension_restored :
+    Gen.stackerRestoreSqueezedBody.head? =
+      some "for dim in X.dims:     if dim != self.feature_name and dim not in ds.dims:         ds = ds.expand_dims({dim: X.coords[dim].values})" := by
+  decide +kernel
+
 end C02
